@@ -37,7 +37,7 @@ var ttmlLanguageMapping = astikit.NewBiMap().
 
 // TTML Clock Time Frames and Offset Time
 var (
-	ttmlRegexpClockTimeFrames = regexp.MustCompile(`\:[\d]+$`)
+	ttmlRegexpClockTimeFrames = regexp.MustCompile(`^[^:]+:[^:]+:[^:]+(\:[\d]+)$`)
 	ttmlRegexpOffsetTime      = regexp.MustCompile(`^(\d+(\.\d+)?)(h|m|s|ms|f|t)$`)
 )
 
@@ -304,16 +304,17 @@ func (d *TTMLInDuration) UnmarshalText(i []byte) (err error) {
 	}
 
 	// Extract clock time frames
-	if indexes := ttmlRegexpClockTimeFrames.FindStringIndex(text); indexes != nil {
+	// Frames are a 4th colon-separated field: "hh:mm:ss" has none
+	if indexes := ttmlRegexpClockTimeFrames.FindStringSubmatchIndex(text); indexes != nil {
 		// Parse frames
-		var s = text[indexes[0]+1 : indexes[1]]
+		var s = text[indexes[2]+1 : indexes[3]]
 		if d.frames, err = strconv.Atoi(s); err != nil {
 			err = fmt.Errorf("astisub: atoi %s failed: %w", s, err)
 			return
 		}
 
 		// Update text
-		text = text[:indexes[0]] + ".000"
+		text = text[:indexes[2]] + ".000"
 	}
 
 	d.d, err = parseDuration(text, ".", 3)
